@@ -344,6 +344,55 @@ theorem in_subquery_forced_pushdown_differs :
     inListLocal default (.table inSubQ) inSubSrc "x" inSubParts.flatten = [some (.str "p")] := by
   decide +kernel
 
+/-! ## shipped sub-query results -/
+
+/-- The length/position contract of `Opts.SubQueryResults`: when the lists shipped with a
+    statement are, position by position, the lists the leader resolved for the IN-subqueries of
+    that statement (one per sub-query, in `WhereSubQueries` order), every partition filters with
+    the leader's WHERE function — whatever the partition's own data would give. -/
+theorem shipped_lists_positional (comb : List Bool → DKey → Bool) (dims : List String)
+    (leader own shipped : List InVals) (hs : shipped = leader) (hl : leader.length = own.length) :
+    whereWith comb dims (partitionLists shipped own) = whereWith comb dims leader := by
+  subst hs
+  simp [partitionLists, hl]
+
+/-- If the number of shipped lists is not the number of IN-subqueries the partition falls back
+    to planning and running them itself: it filters with its OWN lists. -/
+theorem shipped_count_mismatch_uses_own_lists (comb : List Bool → DKey → Bool) (dims : List String)
+    (own shipped : List InVals) (hl : shipped.length ≠ own.length) :
+    whereWith comb dims (partitionLists shipped own) = whereWith comb dims own := by
+  simp [partitionLists, hl]
+
+/-- The regression "identical IN-subqueries are resolved once, one result per DISTINCT
+    sub-query is returned": `x IN (S) OR y IN (S)`, leader lists [L, L], shipped [L]; a
+    partition whose own rows give S = [] drops the key (x = p) that the leader's filter keeps. -/
+theorem shipped_deduplicated_results_differ :
+    let L : InVals := [some (.str "p")]
+    let comb : List Bool → DKey → Bool := fun bs _ => bs.any id
+    whereWith comb ["x", "y"] (partitionLists [L] [[], []]) [("x", .str "p")] = false ∧
+    whereWith comb ["x", "y"] [L, L] [("x", .str "p")] = true := by
+  decide
+
+/-- … and results shipped in another order are set on the wrong sub-queries. -/
+theorem shipped_reversed_results_differ :
+    let L₁ : InVals := [some (.str "p")]
+    let L₂ : InVals := [some (.int .int 2)]
+    let comb : List Bool → DKey → Bool := fun bs _ => bs.any id
+    whereWith comb ["x", "y"] (partitionLists [L₂, L₁] [[], []]) [("x", .str "p")] = false ∧
+    whereWith comb ["x", "y"] [L₁, L₂] [("x", .str "p")] = true := by
+  decide
+
+/-- The table clause of `pushdownAllowed` (/repo d1dff43): it only ever refuses, so every
+    pushdown theorem applies under `pushdownAllowedT`; and when it holds the partition of a
+    point is the partition of the row key the table stores (the `Routed` hypothesis is about
+    stored keys). -/
+theorem pushdownAllowedT_sound (tgb pk : List String) (t : QTree)
+    (h : pushdownAllowedT tgb pk t = true) :
+    pushdownAllowed pk t = true ∧ ∀ k : DKey, pkProj pk (storedKey tgb k) = pkProj pk k := by
+  unfold pushdownAllowedT at h
+  simp only [Bool.and_eq_true] at h
+  exact ⟨h.2, pkProj_storedKey tgb pk h.1⟩
+
 /-! ## the rewrite as text -/
 
 /-- After the fix the partition-side SQL is the rendering of the AST rewrite, for every
